@@ -121,7 +121,7 @@ func init() {
 			"(shared-across-goroutines) 2-3 tasks derive from the same shared meshes under the seeded scheduler and the race detector. distinct_nontrivial = distinct histories in which some mesh had at least two derivations and earlier values were re-read afterwards (sequential), resp. distinct (history, schedule) pairs with at least one context switch between derivers (concurrent)",
 		Scenarios: []ScenCfg{
 			{Name: "branching-histories", Chunk: 400, QuickRuns: 24000, QuickS: 40, ThoroughRuns: 20000000, ThoroughS: 700, Procs: 2, DetQuick: 100, DetThorough: 1000},
-			{Name: "shared-across-goroutines", Race: true, Chunk: 50, QuickRuns: 3200, QuickS: 40, ThoroughRuns: 2000000, ThoroughS: 500, Procs: 4, DetQuick: 24, DetThorough: 120},
+			{Name: "shared-across-goroutines", Race: true, Chunk: 16, QuickRuns: 3200, QuickS: 40, ThoroughRuns: 2000000, ThoroughS: 500, Procs: 4, DetQuick: 24, DetThorough: 120},
 		},
 		Assumptions: []string{
 			"the harness never writes to a slice or map it handed to or received from the library, so a changed snapshot is the library's doing",
